@@ -748,6 +748,12 @@ class ExprMixin:
             if not self.specmode and not (isinstance(base.shape, (S.Rec, S.Opaque, S.Child)) or self.d.contract_assumes('ATTRS_PRESENT')):
                 if self.branch(Val.is_VNone(base.t)):
                     raise PyRaise('AttributeError', ln, f"'NoneType' object has no attribute {name}")
+            if not self.specmode and not isinstance(base.shape, (S.Rec, S.Opaque, S.Child)) and name not in ('real', 'imag', 'numerator', 'denominator'):
+                # ATTRS_PRESENT is an assumption about objects: an int / bool never has the attributes the code reads from nodes
+                # (only when the path condition already forces the value to be an int: for a value of unknown type the
+                # assumption stands)
+                if self.feasible(z3.Not(z3.Or(Val.is_VInt(base.t), Val.is_VBool(base.t)))) == 'unsat':
+                    raise PyRaise('AttributeError', ln, f"'int' object has no attribute {name}")
             return SDyn(self.fld(name, base.t, base.old), old=base.old)
         if isinstance(base, SNone):
             if self.specmode:
